@@ -35,27 +35,57 @@ def parsePts (d : Nat) : Nat → List String → Option (List Pt × List String)
     pure ({ mjd := mjd, coord := cs, form := fo, frame := fr } :: ps, rest)
   | _, _ => none
 
-/-- ops on an ephemeris: `I <date>` interpolate (one reply), `C <n points>` convert every point in place,
-`O <k>` set the order, `M <l|g>` set the method -/
-partial def runOps (d n : Nat) (e : Eph) (acc : List String) : List String → Option (List String)
+/-- one point `<mjd> <form> <frame> <d coords>` -/
+def parsePt (d : Nat) : List String → Option (Pt × List String)
+  | m :: fo :: fr :: rest => do
+    let mjd ← fOfStr? m
+    let (cs, rest) ← takeFloats d rest
+    pure ({ mjd := mjd, coord := cs, form := fo, frame := fr }, rest)
+  | _ => none
+
+def objStr (h : EphH) : Except Err (Nat × Pt) → String
+  | .ok (oid, p) => s!"ok {if h.ids.contains oid then "rec" else "new"} {p.form} {p.frame} {fToStr p.mjd} " ++ fsToStr p.coord
+  | .error err => errStr err
+
+def oidOf : Except Err (Nat × Pt) → Option Nat
+  | .ok (oid, _) => some oid
+  | .error _ => none
+
+/-- ops on an ephemeris (state `EphH`: points with their identities, method, order, interpolator's array):
+`I <date>` interpolate, `P <date>` propagate, `G <i>` `ephem[i]` (one reply each, `ok new|rec <form> <frame> <date> <coords>`:
+`new` = an object that is none of the recorded points); `W <j> <point>` the caller modifies in place the object of
+the j-th reply so that it now reads `<point>`; `C <n points>` `ephem.frame/form = …` (every point converted in place);
+`O <k>` set the order, `M <l|g>` set the method.  `objs`: the object of every reply so far. -/
+partial def runOps (d n : Nat) (h : EphH) (objs : Array (Option Nat)) (acc : List String) : List String → Option (List String)
   | [] => some acc.reverse
   | "I" :: date :: rest => do
     let t ← fOfStr? date
-    let (r, e') := e.interpolate t
-    let s := match r with
-      | .ok p => s!"ok {p.form} {p.frame} {fToStr p.mjd} " ++ fsToStr p.coord
-      | .error err => errStr err
-    runOps d n e' (s :: acc) rest
+    let (r, h') := h.interpolate t
+    runOps d n h' (objs.push (oidOf r)) (objStr h' r :: acc) rest
+  | "P" :: date :: rest => do
+    let t ← fOfStr? date
+    let (r, h') := h.interpolate t
+    runOps d n h' (objs.push (oidOf r)) (objStr h' r :: acc) rest
+  | "G" :: i :: rest => do
+    let i ← i.toInt?
+    let r := h.getitem i
+    runOps d n h (objs.push (oidOf r)) (objStr h r :: acc) rest
+  | "W" :: j :: rest => do
+    let j ← j.toNat?
+    let (p, rest) ← parsePt d rest
+    match objs[j]? with
+    | some (some oid) => runOps d n (h.mutate oid (fun _ => p)) objs acc rest
+    | _ => runOps d n h objs acc rest
   | "C" :: rest => do
     let (ps, rest) ← parsePts d n rest
     let conv : Pt → Pt := fun p => (ps.find? (fun q => q.mjd == p.mjd)).getD p
-    runOps d n (e.convert conv) acc rest
+    runOps d n (h.convert conv) objs acc rest
   | "O" :: k :: rest => do
     let k ← k.toInt?
-    runOps d n (e.setOrder k) acc rest
+    runOps d n (h.setOrder k) objs acc rest
   | "M" :: m :: rest => do
     let m ← method? m
-    runOps d n (e.setMethod m) acc rest
+    runOps d n (h.setMethod m) objs acc rest
   | _ => none
 
 /--
@@ -104,7 +134,7 @@ def handle : List String → Option String
     | some m, some o, some n, some d =>
       match parsePts d n rest with
       | some (ps, ops) =>
-        match runOps d n (Eph.new ps m o) [] ops with
+        match runOps d n (EphH.new ps m o) #[] [] ops with
         | some rs => joinWith " | " rs
         | none => "bad-op"
       | none => "bad-op"
